@@ -82,6 +82,8 @@ type Field struct {
 	Validate  string `json:"validate,omitempty"`
 	Embedded  bool   `json:"embedded,omitempty"`
 	Descr     string `json:"descr,omitempty"`
+	// Deprecated renders a // @Deprecated annotation above the field (a usage-site decoration)
+	Deprecated bool `json:"deprecated,omitempty"`
 }
 
 func (f Field) Exported() bool {
@@ -173,6 +175,8 @@ func (p Param) Required() bool {
 type Security struct {
 	Scheme string   `json:"scheme"`
 	Scopes []string `json:"scopes"`
+	// Descr is free text after the annotation (may itself contain "})")
+	Descr string `json:"descr,omitempty"`
 }
 
 type ErrResp struct {
@@ -181,6 +185,10 @@ type ErrResp struct {
 }
 
 type Method struct {
+	// HiddenArg renders @Hidden(<arg>) instead of the bare form
+	HiddenArg string `json:"hidden_arg,omitempty"`
+	// GroupParams renders consecutive parameters of one type as a single grouped field (a, b, c string)
+	GroupParams  bool       `json:"group_params,omitempty"`
 	Name         string     `json:"name"`
 	File         int        `json:"file"` // index into Controller.Files
 	Verb         string     `json:"verb"` // "" = no @Method (not an endpoint)
